@@ -83,6 +83,7 @@ class ED_Solver(ExactSolver):
         self.x = prob.ED_profile.x
         self.Fr = prob.C0 * prob.ar * prob.Tref**4 * prob.ED_profile.Fr
         self.Tm = prob.Tref * prob.ED_profile.Tm
+        self.sound = prob.sound
         self.Density = prob.rho0 * prob.ED_profile.Density
         self.Speed = prob.sound * prob.ED_profile.Speed
         self.Mach = prob.ED_profile.Mach
@@ -202,6 +203,7 @@ class nED_Solver(ExactSolver):
         self.Tm = prob.Tref * prob.nED_profile.Tm
         self.Tr = prob.Tref * prob.nED_profile.Tr
         self.Fr = prob.C0 * prob.ar * prob.Tref**4 * prob.nED_profile.Fr
+        self.sound = prob.sound
         self.Density = prob.rho0 * prob.nED_profile.Density
         self.Speed = prob.sound * prob.nED_profile.Speed
         self.Mach = prob.nED_profile.Mach
@@ -324,6 +326,7 @@ class Sn_Solver(ExactSolver):
         self.Tm = prob.Tref * prob.Sn_profile.Tm
         self.Tr = prob.Tref * prob.Sn_profile.Tr
         self.Fr = prob.C0 * prob.ar * prob.Tref**4 * prob.Sn_profile.Fr
+        self.sound = prob.sound
         self.Density = prob.rho0 * prob.Sn_profile.Density
         self.Speed = prob.sound * prob.Sn_profile.Speed
         self.Mach = prob.Sn_profile.Mach
@@ -428,6 +431,7 @@ class ie_Solver(ExactSolver):
         self.Ti = prob.Tref * prob.IE_profile.Ti
         self.Tm = prob.Tref * prob.IE_profile.Tm
         self.Te = prob.Tref * prob.IE_profile.Te
+        self.sound = prob.sound
         self.Density = prob.rho0 * prob.IE_profile.Density
         self.Speed = prob.sound * prob.IE_profile.Speed
         self.Mach = prob.IE_profile.Mach
